@@ -6,7 +6,7 @@ from vlib import hexs
 REQUIRED = ['spf_terminates_bounded', 'spf_at_most_ten_dns_terms', 'spflookup_fuel_enough', 'spf_result_in_range',
             'spf_no_injection_bad_token', 'spf_no_injection_exp', 'spf_no_injection_received', 'breaksOk_spec', 'spf_makro_total',
             'spf_gen_constants', 'spf_refines_rfc_counterexample', 'spf_refines_rfc_partial_none',
-            'spf_refines_rfc_partial_dns_failure', 'spf_refines_rfc_partial_duplicate', 'spf_refines_rfc_partial_all']
+            'spf_refines_rfc_partial_dns_failure', 'spf_refines_rfc_partial_duplicate', 'spf_refines_rfc_partial_all', 'txt_strings_concat']
 
 # Documented deviations of qsmtpd/spf.c from RFC 7208, grouped into known findings.  The Lean predicate
 # (Spec.Spf.compareRfc) names the deviation that explains a difference ("fails rfc-result deviation=<name>");
@@ -912,9 +912,36 @@ def server_spf(ctx):
     vlib.handle_results(ctx, 'server-spf', 'Received-SPF result of the whole server vs RFC 7208', [], fails)
 
 
+def gen_txt_cases(ctx):
+    """TXT RDATAs: one to four character-strings per record with lengths around the signed/unsigned boundary of the
+    length octet (seeded change c11-m9 read it through a signed char), any octets; some RDATAs cut short"""
+    rng, out = ctx.rng, []
+    lens = [0, 1, 5, 18, 45, 126, 127, 128, 129, 130, 200, 253, 254, 255]
+    for _ in range(1500 if ctx.quick() else 30000):
+        rds = []
+        for _ in range(rng.choice([1, 1, 2, 3])):
+            rd = b''
+            for _ in range(rng.choice([1, 2, 2, 3, 4])):
+                L = rng.choice(lens)
+                kind = rng.random()
+                body = bytes(rng.choice(b'v=spf1 ip4:192.0.2.1-all~?+abcxyz') for _ in range(L)) if kind < 0.6 else bytes(rng.randrange(256) for _ in range(L))
+                rd += bytes([L]) + body
+            if rng.random() < 0.05 and len(rd) > 2:
+                rd = rd[:rng.randrange(1, len(rd))]
+            rds.append(rd.hex() if rd else '-')
+        out.append('txtrdata ' + ' '.join(rds))
+        ctx.count('txt-rdata-cases')
+    return out
+
+
 def run(ctx):
     vlib.lean_prepare(ctx, REQUIRED)
     server_spf(ctx)
+    ho = vlib.build_harness(ctx, 'h_owfat', libs=('-lowfat',))
+    if ho:
+        res = vlib.differential(ctx, 'txt-rdata', ho, gen_txt_cases(ctx),
+                                corr_name='model QsmtpModel.Spf.Txt.txtRecord vs lib/libowfatconn.c:dnstxt_records (DNS packet built by the harness around the RDATA)')
+        unit_fault(ctx, 'txt-rdata', res)
     h = vlib.build_harness(ctx, 'h_spf')
     if h:
         rng = ctx.rng
@@ -958,7 +985,7 @@ def run(ctx):
     if not ctx.quick():
         vlib.leanchecker(ctx, ['QsmtpModel.Props.C11'])
     return vlib.finish(ctx, assumptions=[
-        'the resolver is the oracle parameter: contract of lib/libowfatconn.c (return value, errno, out/len, TXT bytes outside 32..126 become ?); the real libowfat is not exercised',
+        'the resolver is the oracle parameter: contract of lib/libowfatconn.c (return value, errno, out/len, TXT bytes outside 32..126 become ?); the TXT part of that contract is modelled (Spf.Txt) and run against the real dnstxt_records() (job txt-rdata), the rest of libowfat is not exercised',
         'caller contract of check_host(): a non-empty envelope sender contains @; HELOSTR is a string (helostr or remotehost set); strings have no NUL',
         'libc inet_pton/inet_ntop/strtol/strtoul are restated in Lean (Spf.Net) and tied to glibc by the differential run only',
         'memory safety of qsmtpd/spf.c is observed by ASan/UBSan on the generated cases, not proved'])
